@@ -208,31 +208,35 @@ Section Model04.
     - rewrite Z.eqb_refl. reflexivity.
   Qed.
 
-  Lemma decode_scan : forall s t0, decode_ok s t0 (res (scan ce g (SBytes s) t0)) = true.
+  Lemma decode_scan : forall s t0,
+    decode_ok s t0 (res (scan ce g (SBytes s) t0)) = true /\ decode_ok s t0 (res (scan ce g (SStr s) t0)) = true.
   Proof.
     intros s t0. unfold decode_ok, scan, parse_enum. rewrite vmd_assoc.
-    destruct (assoc_s s (t_value_map ce g)) as [v|]; cbn.
-    - rewrite Z.eqb_refl. reflexivity.
-    - rewrite Z.eqb_refl. reflexivity.
+    destruct (assoc_s s (t_value_map ce g)) as [v|]; cbn; rewrite Z.eqb_refl; split; reflexivity.
   Qed.
 
-  Lemma decode_json : forall data t0,
-    match jdec data with
-    | Some s => decode_ok s t0 (res (unmarshal_json ce g jdec data t0))
-    | None => negb (fst (res (unmarshal_json ce g jdec data t0)) =? 0)
-              && (snd (res (unmarshal_json ce g jdec data t0)) =? t0)
+  (* for ANY decoding of the input (in the run: the one encoding/json produced) *)
+  Lemma decode_json : forall (jd : string -> option string) data t0,
+    match jd data with
+    | Some s => decode_ok s t0 (res (unmarshal_json ce g jd data t0))
+    | None => negb (fst (res (unmarshal_json ce g jd data t0)) =? 0)
+              && (snd (res (unmarshal_json ce g jd data t0)) =? t0)
     end = true.
   Proof.
-    intros data t0. unfold unmarshal_json. destruct (jdec data) as [s|].
+    intros jd data t0. unfold unmarshal_json. destruct (jd data) as [s|].
     - unfold decode_ok, parse_enum. rewrite vmd_assoc.
       destruct (assoc_s s (t_value_map ce g)) as [v|]; cbn; rewrite Z.eqb_refl; reflexivity.
     - cbn. rewrite Z.eqb_refl. reflexivity.
   Qed.
 
-  Lemma mem_existsb : forall y l, mem_z y l = existsb (fun d => d =? y) l.
+  Lemma is_enum_mem : forall v, is_enum ce g v = mem_z v (t_values ce g).
   Proof.
-    intros y l. unfold mem_z. induction l as [|d l IH]; simpl; [reflexivity|].
-    rewrite IH, (Z.eqb_sym y d). reflexivity.
+    intros v. pose proof (is_enum_spec p T k fl Hg Hk v) as Hs.
+    pose proof (values_in p T k fl Hg Hk v) as Hv. pose proof (mem_z_spec v (t_values ce g)) as Hm.
+    fold ce g in Hs, Hv.
+    destruct (is_enum ce g v); destruct (mem_z v (t_values ce g)); try reflexivity; exfalso.
+    - assert (Hf : false = true) by (apply Hm, Hv, Hs; reflexivity). discriminate Hf.
+    - assert (Hf : false = true) by (apply Hs, Hv, Hm; reflexivity). discriminate Hf.
   Qed.
 
   Theorem Pb12_model : Pb12 c (model_obs c o) = true.
@@ -240,7 +244,7 @@ Section Model04.
     unfold Pb12. rewrite declared_obs_model. fold VMD.
     unfold model_obs. rewrite the_gen_some.
     cbn [o_built o_values o_vmap o_mjson o_mtext o_sqlval o_ujson o_utext o_scan o_rt o_parse o_try o_isenum].
-    fold p ce fl T. rewrite Hk.
+    fold p ce fl T.
     split_left.
     - apply (fresh_compiles p T k fl Hg Hk).
     - apply forallb_forall. intros xo Hin. apply in_map_iff in Hin. destruct Hin as [y [Heq _]]. subst xo.
@@ -249,14 +253,16 @@ Section Model04.
       cbn [fst snd]. unfold marshal_text. rewrite spec_string_model. apply String.eqb_refl.
     - apply forallb_forall. intros xo Hin. apply in_map_iff in Hin. destruct Hin as [y [Heq _]]. subst xo.
       cbn [fst snd]. rewrite spec_string_model. apply String.eqb_refl.
-    - apply forallb_forall. intros i Hin. apply in_map_iff in Hin. destruct Hin as [[[data t0] r0] [Heq _]]. subst i.
-      cbn [fst snd u3]. pose proof (decode_json data t0) as Hd. unfold decode_ok, res in Hd.
-      destruct (jdec data); exact Hd.
+    - apply forallb_forall. intros i Hin. apply in_map_iff in Hin.
+      destruct Hin as [[[[data dc] t0] r0] [Heq _]]. subst i.
+      cbn [fst snd]. pose proof (decode_json (fun _ => dc) data t0) as Hd. unfold decode_ok, res in Hd.
+      cbv beta in Hd. destruct dc; exact Hd.
     - apply forallb_forall. intros i Hin. apply in_map_iff in Hin. destruct Hin as [[[s t0] r0] [Heq _]]. subst i.
       cbn [fst snd u3]. exact (decode_text s t0).
     - apply forallb_forall. intros i Hin. apply in_map_iff in Hin. destruct Hin as [[[sv t0] r0] [Heq _]]. subst i.
       cbn [fst snd]. destruct sv; try (cbn; rewrite Z.eqb_refl; reflexivity).
-      exact (decode_scan s t0).
+      + exact (proj1 (decode_scan s t0)).
+      + exact (proj2 (decode_scan s t0)).
     - apply forallb_forall. intros i Hin. apply in_map_iff in Hin.
       destruct Hin as [[[[codec x] t0] r0] [Heq _]]. subst i. cbn [fst snd].
       destruct (mem_z x (map snd D)) eqn:Hm; [|reflexivity].
@@ -265,10 +271,8 @@ Section Model04.
         by (apply (json_roundtrip p T k fl Hg Hk jenc jdec jdec_jenc n x t0 Hin)).
       assert (Ht : unmarshal_text ce g (marshal_text ce g x) t0 = (None, x))
         by (apply (text_roundtrip p T k fl Hg Hk n x t0 Hin)).
-      assert (Hs : scan ce g (match sql_value ce g x with SStr s => SBytes s | v => v end) t0 = (None, x)).
-      { destruct (str_of_declared p T k fl Hg Hk n x Hin) as [n1 [_ [Hin1 Hso]]].
-        unfold sql_value. unfold ce, g. rewrite Hso.
-        unfold scan. rewrite (parse_enum_hit p T k fl Hg Hk n1 x Hin1). reflexivity. }
+      assert (Hs : scan ce g (sql_value ce g x) t0 = (None, x))
+        by (apply (sql_roundtrip p T k fl Hg Hk n x t0 Hin)).
       destruct (codec =? 0); [rewrite Hj; cbn; rewrite Z.eqb_refl; reflexivity|].
       destruct (codec =? 1); [rewrite Ht; cbn; rewrite Z.eqb_refl; reflexivity|].
       destruct (codec =? 2); [rewrite Hs; cbn; rewrite Z.eqb_refl; reflexivity|].
@@ -280,8 +284,7 @@ Section Model04.
       cbn [fst snd]. unfold try_parse_enum, parse_enum.
       destruct (assoc_s s (t_value_map ce g)) as [v|]; cbn; rewrite Z.eqb_refl; reflexivity.
     - apply forallb_forall. intros i Hin. apply in_map_iff in Hin. destruct Hin as [[[tv v] b0] [Heq _]]. subst i.
-      cbn [fst snd]. unfold is_enum. change (g_kind g) with k. rewrite mem_existsb.
-      apply Bool.eqb_reflx.
+      cbn [fst snd]. rewrite is_enum_mem. apply Bool.eqb_reflx.
   Qed.
 End Model04.
 
@@ -558,72 +561,91 @@ Section Model14.
         * apply str_of_negative; [exact Hnin' | lia].
   Qed.
 
+  Lemma first_name_none_notin : forall x, first_name D x = None -> ~ In x (map snd D).
+  Proof.
+    intros x Hf. rewrite first_name_firstv in Hf. apply firstv_none.
+    destruct (firstv D x); [discriminate | reflexivity].
+  Qed.
+
+  Lemma string_ok_model : forall x,
+    string_ok c D (bits_declared_b (map snd D) || negb (f_bit fl)) x (str_of ce g x) = true.
+  Proof.
+    intros x. unfold string_ok, name_of_val. rewrite Hbit. cbn [negb]. rewrite orb_false_r.
+    destruct (first_name D x) as [n1|] eqn:Hf.
+    - unfold trim. fold T. unfold ce, g, D in *. rewrite (str_of_first p T k fl Hg Hk x n1 Hf). apply String.eqb_refl.
+    - pose proof (first_name_none_notin x Hf) as Hnin.
+      assert (Hnin' : ~ In x (t_values ce g)).
+      { intros Hin. apply Hnin. apply (values_in p T k fl Hg Hk). exact Hin. }
+      destruct (Z.ltb_spec x 0) as [Hneg|Hnn].
+      + rewrite (str_of_negative ce g x Hnin' Hneg). apply String.eqb_refl.
+      + destruct (bits_declared_b (map snd D)) eqn:Hbd; [|reflexivity].
+        apply bits_declared_b_spec in Hbd.
+        unfold spec_string. fold fl. rewrite Hbit.
+        rewrite (spec_bit_string_model x Hbd). apply String.eqb_refl.
+  Qed.
+
   Theorem Pb14_model : Pb14 c (model_obs c o) = true.
   Proof.
     unfold Pb14. rewrite declared_obs_model14.
     unfold model_obs. rewrite the_gen_some14.
-    cbn [o_built o_bitn o_bitstr o_points o_bitops]. fold p ce fl T. rewrite Hbit. cbn [negb orb].
-    rewrite orb_false_r.
+    cbn [o_built o_bitn o_bitstr o_points o_bitops o_bitpairs]. fold p ce fl T. rewrite Hbit.
     split_left.
     - apply (fresh_compiles p T k fl Hg Hk).
-    - destruct (bits_declared_b (map snd D)) eqn:Hbd; [|reflexivity]. cbn [negb orb].
-      apply bits_declared_b_spec in Hbd.
-      assert (Heq : map (spec_bit_string c D) (range_from 0 (Z.to_nat (o_bitn o))) =
-                    map (str_of ce g) (range_from 0 (Z.to_nat (o_bitn o)))).
-      { apply map_ext. intros x. apply spec_bit_string_model. exact Hbd. }
-      rewrite Heq. apply list_eqb_S_refl.
-    - destruct (bits_declared_b (map snd D)) eqn:Hbd; [|reflexivity]. cbn [negb orb].
-      apply bits_declared_b_spec in Hbd.
-      apply forallb_forall. intros [x [s b]] Hin. apply in_map_iff in Hin.
+    - apply andb_true_iff. split.
+      + rewrite map_length. apply Nat.eqb_refl.
+      + rewrite combine_map_self. apply forallb_forall. intros xs Hin. apply in_map_iff in Hin.
+        destruct Hin as [y [Heq _]]. subst xs. cbn [fst snd].
+        pose proof (string_ok_model y) as Hs. rewrite Hbit in Hs. exact Hs.
+    - apply forallb_forall. intros [x [s b]] Hin. apply in_map_iff in Hin.
       destruct Hin as [xo [Heq _]]. inversion Heq; subst. clear Heq.
-      unfold spec_string. fold fl. rewrite Hbit.
-      rewrite (spec_bit_string_model (fst xo) Hbd).
-      apply String.eqb_refl.
+      pose proof (string_ok_model (fst xo)) as Hs. rewrite Hbit in Hs. exact Hs.
     - apply forallb_forall. intros fo Hin. apply in_map_iff in Hin.
       destruct Hin as [[f rest] [Heq _]]. subst fo. cbn [fst].
       set (n := Z.to_nat (o_bitn o)).
       set (xs := range_from 0 n).
-      assert (Hmask : forall a, 0 <= a -> Z.testbit (mask_of (fun x => has x f) xs) a = ((a <? Z.of_nat n) && has a f)).
-      { intros a Ha. unfold xs. rewrite (mask_of_spec (fun x => has x f) n a Ha). reflexivity. }
-      assert (Hn : forall a, (a <? o_bitn o) = true -> (a <? Z.of_nat n) = true).
-      { intros a Ha. apply Z.ltb_lt in Ha. apply Z.ltb_lt. unfold n. lia. }
+      assert (Hmask : forall (P : Z -> bool) a, In a xs -> Z.testbit (mask_of P xs) a = P a).
+      { intros P a Ha. unfold xs in *. apply in_range_from in Ha.
+        rewrite (mask_of_spec P n a (proj1 Ha)).
+        assert (Hlt : (a <? Z.of_nat n) = true) by (apply Z.ltb_lt; lia).
+        rewrite Hlt. reflexivity. }
       split_left.
       + rewrite map_length. apply Nat.eqb_refl.
       + rewrite map_length. apply Nat.eqb_refl.
       + rewrite combine_map_self. apply forallb_forall. intros xa Hxa. apply in_map_iff in Hxa.
         destruct Hxa as [y [Heq Hy]]. subst xa. cbv beta iota.
         pose proof (has_add y f) as Hha. unfold has in Hha.
-        rewrite Hha. pose proof (add_outside y f) as Hout. rewrite Hout, Z.eqb_refl. cbn [andb].
-        destruct (0 <=? add y f) eqn:H0; [|reflexivity].
-        destruct (add y f <? o_bitn o) eqn:H1; [|reflexivity]. cbn [andb].
-        apply Z.leb_le in H0. rewrite (Hmask _ H0), (Hn _ H1). unfold has. rewrite Hha. reflexivity.
+        rewrite Hha. rewrite (add_outside y f), Z.eqb_refl. reflexivity.
       + rewrite combine_map_self. apply forallb_forall. intros xr Hxr. apply in_map_iff in Hxr.
         destruct Hxr as [y [Heq Hy]]. subst xr. cbv beta iota.
-        rewrite (land_remove_0 y f), (remove_outside y f), !Z.eqb_refl. cbn [andb].
-        destruct (0 <=? remove y f) eqn:H0; [|reflexivity].
-        destruct (remove y f <? o_bitn o) eqn:H1; [|reflexivity].
-        destruct (f =? 0) eqn:Hf0; [reflexivity|]. cbn [andb negb].
-        apply Z.leb_le in H0. rewrite (Hmask _ H0), (Hn _ H1). cbn [andb].
-        apply Z.eqb_neq in Hf0. rewrite (has_remove y f Hf0). reflexivity.
-      + apply forallb_forall. intros x Hx. unfold xs in Hx. apply in_range_from in Hx.
-        rewrite (Hmask x (proj1 Hx)).
-        assert (Hlt : (x <? Z.of_nat n) = true) by (apply Z.ltb_lt; lia).
-        rewrite Hlt. cbn [andb]. unfold has. apply Bool.eqb_reflx.
+        rewrite (land_remove_0 y f), (remove_outside y f), !Z.eqb_refl. reflexivity.
+      + apply forallb_forall. intros x Hx.
+        rewrite (Hmask (fun x => has x f) x Hx), (Hmask (fun x => has (add x f) f) x Hx),
+                (Hmask (fun x => has (remove x f) f) x Hx).
+        cbv beta. rewrite (has_add x f). unfold has at 1. rewrite Bool.eqb_reflx. cbn [andb].
+        destruct (Z.eqb_spec f 0) as [Hf0|Hf0]; [reflexivity|].
+        rewrite (has_remove x f Hf0). reflexivity.
+    - apply forallb_forall. intros i Hin. apply in_map_iff in Hin.
+      destruct Hin as [[[x f] r0] [Heq _]]. subst i. cbn [fst snd].
+      pose proof (has_add x f) as Hha.
+      unfold has at 1. rewrite Bool.eqb_reflx. cbn [andb].
+      assert (Hl : (Z.land (add x f) f =? f) = true) by (unfold has in Hha; exact Hha).
+      rewrite Hl, (add_outside x f), (land_remove_0 x f), (remove_outside x f), !Z.eqb_refl, Hha. cbn [andb].
+      destruct (Z.eqb_spec f 0) as [Hf0|Hf0]; [reflexivity|].
+      rewrite (has_remove x f Hf0). reflexivity.
   Qed.
 End Model14.
 
-Theorem Pb12_model_in_guard : forall c o k,
-  enum_guard (c_pkg c) (c_type c) = true -> kind_of_type (c_pkg c) (c_type c) = Some k ->
-  f_bit (c_flags c) = false ->
+Theorem Pb12_model_in_guard : forall c o,
+  enum_guard (c_pkg c) (c_type c) = true -> f_bit (c_flags c) = false ->
   Pb12 c (model_obs c o) = true.
 Proof.
-  intros c o k Hgd Hk Hnb. apply enum_guard_spec in Hgd.
+  intros c o Hgd Hnb. apply enum_guard_spec in Hgd.
   destruct (the_gen c) as [g|] eqn:Hgen.
   - destruct (generate_inv _ _ _ _ Hgen) as [k' [Hk' [Hgeq Hne]]].
     apply (Pb12_model c o k' Hgd Hk' Hnb).
     intros Hnil. apply Hne. subst g. apply (names_nil_iff _ _ k' _ Hgd Hk'). exact Hnil.
   - pose proof (the_gen_none_declared c Hgd Hgen) as Hnil.
-    unfold Pb12, declared_obs, model_obs. rewrite Hgen, Hnil, Hk. reflexivity.
+    unfold Pb12, declared_obs, model_obs. rewrite Hgen, Hnil. reflexivity.
 Qed.
 
 (* Pb14 on a target generated WITHOUT -bit (ordinary enums next to the flag enums) *)
@@ -638,14 +660,23 @@ Proof.
     { intros Hnil. apply Hne. subst g. apply (names_nil_iff _ _ k _ Hg Hk). exact Hnil. }
     unfold Pb14. rewrite (declared_obs_model c o k Hg Hk Hne').
     pose proof (the_gen_some c k Hg Hk Hne') as Hsome.
-    unfold model_obs. rewrite Hsome. cbn [o_built o_bitn o_bitstr o_points o_bitops].
-    rewrite Hnb. cbn [negb orb]. rewrite !orb_true_r. cbn [negb orb].
+    unfold model_obs. rewrite Hsome. cbn [o_built o_bitn o_bitstr o_points o_bitops o_bitpairs].
+    rewrite Hnb. cbn [negb orb]. rewrite !orb_true_r.
     split_left.
     + apply (fresh_compiles _ _ k _ Hg Hk).
     + reflexivity.
     + apply forallb_forall. intros [x [s b]] Hin. apply in_map_iff in Hin.
       destruct Hin as [xo [Heq _]]. inversion Heq; subst. clear Heq.
-      rewrite (spec_string_model c k Hg Hk Hnb (fst xo)). apply String.eqb_refl.
+      unfold string_ok, name_of_val.
+      destruct (first_name (declared (c_type c) (c_pkg c)) (fst xo)) as [n1|] eqn:Hf.
+      * unfold trim. rewrite (str_of_first _ _ k _ Hg Hk (fst xo) n1 Hf). apply String.eqb_refl.
+      * assert (Hnin : ~ In (fst xo) (map snd (declared (c_type c) (c_pkg c)))).
+        { rewrite first_name_firstv in Hf. apply firstv_none.
+          destruct (firstv (declared (c_type c) (c_pkg c)) (fst xo)); [discriminate | reflexivity]. }
+        rewrite (str_of_undeclared _ _ k _ Hg Hk (fst xo) Hnb Hnin).
+        destruct (fst xo <? 0); [apply String.eqb_refl|].
+        unfold spec_string. rewrite Hnb. unfold name_of_val. rewrite Hf. apply String.eqb_refl.
+    + reflexivity.
     + reflexivity.
   - pose proof (the_gen_none_declared c Hg Hgen) as Hnil.
     unfold Pb14, declared_obs, model_obs. rewrite Hgen, Hnil, Hnb. reflexivity.
